@@ -232,7 +232,7 @@ pub fn format_variables(ctx: &Context, variables: &Punctuated<Var>, shape: Shape
 }
 """, module="formatters::assignment"),
         Fn(EX, "format_var", mode="stub", contract="ensures var_id(r) == var_id(*var),", note="names through format_token_reference, prefix/suffix chains through format_var_expression (class C: leaf identity)"),
-        Fn(GEN, "format_symbol", mode="stub", proved_in="tok", contract="ensures tok_of(r) == tok_of(*wanted_symbol),"),
+        Fn(GEN, "format_symbol", mode="stub", proved_in="tok", contract="ensures tok_of(r) == tok_of(*wanted_symbol), tr_token(r) == tr_token(*wanted_symbol),"),
         Fn(ASG, "format_assignment_no_trivia", contract="""
     requires exprs_wf(n_asg_expressions(assignment)), ppairs(n_asg_expressions(assignment)).len() >= 1,
     ensures var_sig(n_asg_variables(&r)) == var_sig(n_asg_variables(assignment)), //# C02.assignment_same
@@ -484,6 +484,15 @@ pub open spec fn last_wf(a: LastStmt) -> bool { match a { LastStmt::Return(x) =>
     match op { CompoundOp::PlusEqual(_) => 1, CompoundOp::MinusEqual(_) => 2, CompoundOp::StarEqual(_) => 3, CompoundOp::SlashEqual(_) => 4, CompoundOp::DoubleSlashEqual(_) => 5,
                CompoundOp::PercentEqual(_) => 6, CompoundOp::CaretEqual(_) => 7, CompoundOp::TwoDotsEqual(_) => 8, _ => 0 }
 }
+#[cfg(feature = "luau")] pub open spec fn cop_tok(op: CompoundOp) -> TokenReference {
+    match op { CompoundOp::PlusEqual(t) => t, CompoundOp::MinusEqual(t) => t, CompoundOp::StarEqual(t) => t, CompoundOp::SlashEqual(t) => t, CompoundOp::DoubleSlashEqual(t) => t,
+               CompoundOp::PercentEqual(t) => t, CompoundOp::CaretEqual(t) => t, CompoundOp::TwoDotsEqual(t) => t, _ => some_token() }
+}
+// the text each compound operator is printed with (Luau grammar: compoundop), with the spaces StyLua puts around it
+#[cfg(feature = "luau")] pub open spec fn cop_text(op: int) -> Seq<char> {
+    if op == 1 { " += "@ } else if op == 2 { " -= "@ } else if op == 3 { " *= "@ } else if op == 4 { " /= "@ } else if op == 5 { " //= "@ }
+    else if op == 6 { " %= "@ } else if op == 7 { " ^= "@ } else if op == 8 { " ..= "@ } else { " ? "@ }
+}
 #[cfg(feature = "luau")] pub uninterp spec fn n_ca_lhs(n: &CompoundAssignment) -> Var;
 #[cfg(feature = "luau")] pub uninterp spec fn n_ca_op(n: &CompoundAssignment) -> CompoundOp;
 #[cfg(feature = "luau")] pub uninterp spec fn n_ca_rhs(n: &CompoundAssignment) -> Expression;
@@ -492,7 +501,10 @@ pub open spec fn last_wf(a: LastStmt) -> bool { match a { LastStmt::Return(x) =>
 #[cfg(feature = "luau")] pub assume_specification [CompoundAssignment::rhs] (n: &CompoundAssignment) -> (r: &Expression) ensures *r == n_ca_rhs(n);
 #[cfg(feature = "luau")] pub assume_specification [CompoundAssignment::new] (lhs: Var, op: CompoundOp, rhs: Expression) -> (r: CompoundAssignment) ensures n_ca_lhs(&r) == lhs, n_ca_op(&r) == op, n_ca_rhs(&r) == rhs;
 """, module="formatters::luau"),
-        Fn("src/formatters/luau.rs", "format_compound_op", attrs='''#[cfg(feature = "luau")]\n''', contract="ensures cop_id(r) == cop_id(*compound_op), //# C02.compound_assignment_same"),
+        Fn("src/formatters/luau.rs", "format_compound_op", attrs='''#[cfg(feature = "luau")]\n''', contract="""
+    ensures cop_id(r) == cop_id(*compound_op), //# C02.compound_assignment_same
+            tr_token(cop_tok(r)) == symbol_of_text(cop_text(cop_id(*compound_op))), //# C02.compound_op_prints_the_operator
+"""),
         Fn("src/formatters/luau.rs", "format_compound_assignment", attrs='''#[cfg(feature = "luau")]\n''', contract="""
     requires wf(skel(n_ca_rhs(compound_assignment))),
     ensures var_id(n_ca_lhs(&r)) == var_id(n_ca_lhs(compound_assignment)), //# C02.compound_assignment_same
@@ -511,6 +523,7 @@ LABELS = {
     "C02.goto_label_same": dict(props=["C02"], text="format_goto / format_goto_no_trivia / format_label return a node with the same label name"),
     "C02.attribute_same": dict(props=["C02"], text="format_attribute returns an attribute with the same name"),
     "C02.compound_assignment_same": dict(props=["C02"], text="format_compound_op maps every compound operator to itself; format_compound_assignment returns the same variable, the same operator and the same value (modulo redundant parentheses)"),
+    "C02.compound_op_prints_the_operator": dict(props=["C02"], text="format_compound_op prints every compound operator with the symbol the Luau grammar gives it"),
     "C02.last_stmt_same": dict(props=["C02"], text="format_last_stmt_no_trivia returns the same kind of last statement (break stays break, continue stays continue), a return with the same values"),
     "C02.assignment_same": dict(props=["C02"], text="format_assignment_no_trivia: the same variables and the same values, in order, whichever layout is chosen"),
     "C02.assignment_values_same": dict(props=["C02"], text="attempt_assignment_tactics: whichever layout tactic wins, the list has as many values as the input, value i is the input's value i modulo redundant parentheses, and the `=` token is the `=`"),
